@@ -31,7 +31,7 @@ import (
 //   stale id=<k>                                       BlockDisconnected for a block that is not on the best chain
 //   dupc | duptx h=<n> | mtx tx=<id>                   repeated BlockConnected(tip) / RelevantTx / unmined tx
 //   raw k=<c|d> id=<k>                                 malformed stream: a notification the backend state does not justify
-//   stop | start recw=<n> | state | hashes from=<a> to=<b>
+//   stop | start recw=<n> | startx id=<k> mode=<m> | state | hashes from=<a> to=<b>
 
 var namespaces = struct{ addr, tx []byte }{[]byte("waddrmgr"), []byte("wtxmgr")}
 
@@ -309,6 +309,53 @@ func (r *syncRunner) Exec(op string) (string, string) {
 			ctx = "startup-recovery"
 		}
 		return r.state(), r.oracle(ctx)
+	case "startx":
+		// restart; block id (child of the tip) arrives after the rescan request was evaluated: its notifications are
+		// queued ahead of RescanFinished
+		b := r.env.fc.block(atoi(kv["id"]))
+		if r.env.running || b == nil || b.parent != r.env.fc.tip() {
+			return "bad-op", ""
+		}
+		if err := r.env.reopen(0); err != nil {
+			return "err open " + err.Error(), ""
+		}
+		mode := kv["mode"]
+		r.env.fc.mu.Lock()
+		r.env.fc.beforeFinish = func(c *conn) {
+			_ = r.env.fc.push(b)
+			m := b.meta()
+			var recs []*wtxmgr.TxRecord
+			for _, tx := range b.txs {
+				rec, _ := wtxmgr.NewTxRecordFromMsgTx(tx, b.hdr.Timestamp)
+				recs = append(recs, rec)
+			}
+			sendTxs := func() {
+				for _, rec := range recs {
+					mm := m
+					c.send(chain.RelevantTx{TxRecord: rec, Block: &mm})
+				}
+			}
+			switch mode {
+			case "a":
+				c.send(chain.BlockConnected(m))
+				sendTxs()
+			case "b":
+				sendTxs()
+				c.send(chain.BlockConnected(m))
+			default:
+				c.send(chain.FilteredBlockConnected{Block: &m, RelevantTxs: recs})
+				c.send(chain.BlockConnected(m))
+			}
+		}
+		r.env.fc.mu.Unlock()
+		if !r.env.startSync(1500 * time.Millisecond) {
+			r.env.stop()
+			return "sync-stuck", ""
+		}
+		if b.height > r.maxTip {
+			r.maxTip = b.height
+		}
+		return r.state(), r.oracle("startup-block-during-rescan")
 	case "state":
 		return r.state(), ""
 	case "hashes":
@@ -793,6 +840,15 @@ func (g *syncGen) offline(recw int) {
 	defer func() { g.running = true }()
 	wtip := len(g.best) - 1
 	g.tags["restart"] = true
+	if g.rng.Intn(5) == 0 && recw == 0 {
+		// nothing happened while stopped, but a block arrives while the start-up rescan is in flight
+		id := g.newBlock(g.tip(), nil)
+		g.best = append(g.best, id)
+		delete(g.zero, len(g.best)-1)
+		g.emit("startx id=%d mode=%s", id, g.mode())
+		g.tags["block-during-rescan"] = true
+		return
+	}
 	switch g.rng.Intn(4) {
 	case 0: // nothing happened
 	case 1: // pure extension
